@@ -21,4 +21,5 @@ MUTANTS = [
     Mutant('data_reset_unconditional', 'src/pharmpy/model/external/nonmem/model.py', edit_node('Model.update_source', lambda n, seg: isinstance(n, ast.BoolOp) and seg.startswith('updated_dataset') and 'old_datainfo' in seg, lambda seg: 'True'), 'S6', '$DATA reset although nothing changed'),
     Mutant('hoisted_insert_pos', R + 'code_record.py', edit_node('CodeRecord.update_statements', stmt_containing('insert_pos = len(new_children)'), to_pass, 0), 'S8', 'position computed once'),
     Mutant('empty_index_entry', R + 'code_record.py', edit_node('_parse_tree', lambda n, seg: isinstance(n, ast.If) and seg.startswith('if symbols:') and 'curind' in seg, lambda seg: 'if True:' + seg[len('if symbols:'):], 0), 'S16', 'index entry for a block without statements (regression of a99e6a5)'),
+    Mutant('replace_all_every_problem', 'src/pharmpy/model/external/nonmem/nmtran_parser.py', edit_node('NMTranControlStream.replace_all', lambda n, seg: isinstance(n, ast.If) and seg.startswith("if rec.name == 'PROBLEM'"), to_pass, 0), 'S18', 'problem boundaries ignored (regression of 6502ecb)'),
 ]
